@@ -483,7 +483,8 @@ fn build_matcher_tree(
                 Some(Printer::new(PrintDelimiter::Newline, Some(file)).into_box())
             }
             "-fprintf" => {
-                if i >= args.len() - 2 {
+                // (args.len() - 2 would underflow when -fprintf is the only argument)
+                if i + 2 >= args.len() {
                     return Err(From::from(format!("missing argument to {}", args[i])));
                 }
 
